@@ -138,6 +138,8 @@ type VC struct {
 	verifyingBody bool
 	absQuant      bool // quantifiers over slice indices are rewritten to absolute addresses
 	jsonAx        bool
+	identAx       bool
+	identsAx      bool
 	nlet          int
 	tnameAx       bool
 	params        []*Val // entry values of the parameters (for replay)
